@@ -91,6 +91,18 @@ def gen_cases(rng, tier):
         ops = C02.gen_ops(rng, len(w), rng.choice([1, 2, 3]), B)
         ops = [o for o in ops if o[0] != 5] if rng.random() < 0.5 else ops
         yield "str_run " + " ".join(fmt_arg(x) for x in [[B], [maxc], w] + ops), ["str", kind]
+    # records the request parser must SKIP whose content + padding exceeds 65535 bytes, on buffers above 64 KiB, handed over in one
+    # call (and in two): before BeginRequest, between Params records, with ids 0 / foreign / own
+    for (P, pad) in ((65535, 255), (65535, 1), (65400, 200), (65281, 255)) if not quick else ((65535, 255), (65281, 255)):
+        for where in ("idle", "params"):
+            t = rng.choice([STDIN, DATA, ABORT, 11, 200]) if where == "idle" else rng.choice([STDIN, 11, 200])
+            huge = header(t, rng.choice([0, 1, 9]) if where == "idle" else 9, P, pad) + [rng.randrange(256) for _ in range(P)] + (flat([record(BEGIN, 5, [0, 1, 0, 0, 0, 0, 0, 0], 0)]) + [0] * pad)[:pad]
+            pre = minimal_preamble(1, 1)
+            w = (huge + flat(pre)) if where == "idle" else (flat(pre[:1]) + huge + flat(pre[1:]))
+            w += record(STDIN, 1, [1, 2, 3]) + record(STDIN, 1, [])
+            B = rng.choice([70000, 131072])
+            for s_ in ([], [10 ** 6], [65535, 10 ** 6], [rng.randrange(65000, 66000), 10 ** 6]):
+                yield case("req_run", [B], [3], w, s_), ["req", "huge-skip"]
     # all 256 type values right after a valid preamble and in idle state
     for t in range(256):
         rec = record(t, rng.choice([0, 1]), [rng.randrange(256) for _ in range(rng.choice([0, 8, 13]))], rng.choice([0, 5]))
